@@ -418,6 +418,17 @@ def filter_citations(citations: List[CitationBase]) -> List[CitationBase]:
         is_overlapping = overlapping_citations(
             citation.full_span(), last_citation.full_span()
         )
+        if (
+            isinstance(citation, ReferenceCitation)
+            and not is_overlapping
+            and any(
+                overlapping_citations(citation.full_span(), c.full_span())
+                for c in filtered_citations
+            )
+        ):
+            # the reference overlaps an earlier, longer citation that is
+            # not the last one kept
+            continue
         if is_overlapping:
             # In cases overlap, prefer anything to a reference citation
             if isinstance(last_citation, ReferenceCitation):
